@@ -4,7 +4,7 @@
 (* every history of the source list.  A list is a sequence of rows         *)
 (* [lab |-> pandas row label, val |-> payload].  The history operations    *)
 (* change the labels exactly as the library does:                          *)
-(*   Filter   keeps labels (gaps)          SortRev  permutes rows + labels *)
+(*   Filter / FilterMid keep labels (gaps) SortRev  permutes rows + labels *)
 (*   Append   relabels 0..n-1 (ignore_index)                               *)
 (*   StackWr  labels become the global positions in the stacked frame      *)
 (*   Rate     deep copy + stack write      Copy     keeps labels           *)
@@ -29,6 +29,7 @@ Ops == Len(hist)
 Do(name, ns) == /\ Ops < Depth /\ out = <<>> /\ src' = ns /\ hist' = Append(hist, name) /\ UNCHANGED <<out, base>>
 
 Filter  == Len(src) >= 1 /\ Do("filter", Tail(src))
+FilterMid == Len(src) >= 2 /\ Do("filter_mid", <<src[1]>> \o SubSeq(src, 3, Len(src)))    \* keeps the first label, leaves a gap inside
 SortRev == Do("sort_rev", [i \in DOMAIN src |-> src[Len(src) + 1 - i]])
 Append1 == Do("append", [i \in 1..Len(src)+1 |-> IF i <= Len(src) THEN [lab |-> i - 1, val |-> src[i].val]
                                                    ELSE [lab |-> i - 1, val |-> 5]])
@@ -45,7 +46,7 @@ Cast == /\ out = <<>>
         /\ hist' = Append(hist, "convert")
         /\ UNCHANGED <<src, base>>
 
-Next == Filter \/ SortRev \/ Append1 \/ StackWr \/ Rate \/ Copy \/ Cast
+Next == Filter \/ FilterMid \/ SortRev \/ Append1 \/ StackWr \/ Rate \/ Copy \/ Cast
 Spec == Init /\ [][Next]_vars
 
 Preserved == out # <<>> => SameBag([i \in DOMAIN src |-> <<src[i].val>>], [i \in DOMAIN out[1] |-> <<out[1][i]>>])
